@@ -28,7 +28,7 @@ pub struct Scn {
     pub live: Vec<(SnapshotFile, Option<MemSource>)>,
 }
 
-fn cfg(seed: u64) -> ConfigOptions {
+pub fn cfg(seed: u64) -> ConfigOptions {
     ConfigOptions::default()
         .set_datapack_size(ByteSize(*Rng::new(seed).pick(&[3000u64, 6000])))
         .set_treepack_size(ByteSize(1500))
@@ -40,7 +40,7 @@ fn prune_opts(instant: bool) -> PruneOptions {
     parse_opts(&format!("0,0,0,{flags},u,p0")).unwrap().opts
 }
 
-fn do_backup(h: &RepoHandle, src: &MemSource) -> RusticResult<SnapshotFile> {
+pub fn do_backup(h: &RepoHandle, src: &MemSource) -> RusticResult<SnapshotFile> {
     repo::backup(h, src, &BackupOptions::default(), SnapshotFile::default())
 }
 
@@ -132,7 +132,7 @@ pub fn all_index(h: &RepoHandle, store: &Store) -> Result<Vec<(Id, IndexFile)>, 
     Ok(decode_index_files(h, store, &ids).map_err(|e| format!("oracle-fail:index-undecodable:{e}"))?.into_iter().map(|(i, f)| (*i, f)).collect())
 }
 
-fn union(a: &Store, b: &Store) -> Store {
+pub fn union(a: &Store, b: &Store) -> Store {
     let mut u = a.clone();
     for (k, v) in b {
         _ = u.insert(*k, v.clone());
@@ -210,6 +210,13 @@ impl Namer {
 
 /// Abstract the state before and the log of a run into the op tokens of the Lean monitor.
 pub fn abstract_trace(h: &RepoHandle, before: &Store, after: &Store, log: &[LogOp]) -> Result<(String, String), String> {
+    let (pre, run) = abstract_tokens(h, before, after, log)?;
+    let j = |v: Vec<String>| if v.is_empty() { "-".to_string() } else { v.join(";") };
+    Ok((j(pre), j(run)))
+}
+
+/// as `abstract_trace`, tokens not joined (one token per *applied* log entry)
+pub fn abstract_tokens(h: &RepoHandle, before: &Store, after: &Store, log: &[LogOp]) -> Result<(Vec<String>, Vec<String>), String> {
     let everything = union(before, after);
     let mut packs: BTreeMap<Id, Vec<(bool, Id)>> = BTreeMap::new();
     let index_all: BTreeMap<Id, IndexFile> = all_index(h, &everything)?.into_iter().collect();
@@ -281,8 +288,7 @@ pub fn abstract_trace(h: &RepoHandle, before: &Store, after: &Store, log: &[LogO
         };
         run.push(tok);
     }
-    let j = |v: Vec<String>| if v.is_empty() { "-".to_string() } else { v.join(";") };
-    Ok((j(pre), j(run)))
+    Ok((pre, run))
 }
 
 /// state oracles on what is stored after a crashed / failed / complete run
